@@ -8,6 +8,7 @@ package h
 import (
 	"encoding/json"
 	"fmt"
+	"runtime/debug"
 	"strconv"
 	"sync"
 	"testing"
@@ -68,7 +69,7 @@ func runConcPlan(p concPlan) (devs []Deviation, overlapped bool, err error) {
 			defer func() {
 				if r := recover(); r != nil {
 					mu.Lock()
-					panics = append(panics, fmt.Sprint(r))
+					panics = append(panics, fmt.Sprint(r)+"\n"+string(debug.Stack()))
 					mu.Unlock()
 				}
 			}()
